@@ -279,7 +279,24 @@ theorem decision_general {al bl : List Entry} {a : Access} (h : newAccessCtx al 
 
 /-- What the model produces for one request: the observation the spec judges. -/
 def modelObs (a : Access) (r : Request) : Obs :=
-  { blocked := (a.isBlockedClient r.addr (match r.clientID with | .ok id => id | .error _ => [])).1
+  { blocked := (a.isBlockedClient r.addr r.effectiveID).1
     action := (handleBefore a r).1 }
+
+/-- In the domain of the property the decision is "excluded by the settings",
+also for the zero address. -/
+theorem decision_in_scope {al bl : List Entry} {a : Access} (h : newAccessCtx al bl = .ok a)
+    (r : Request) (hs : inScope ⟨al, bl, r⟩ r.effectiveID = true) :
+    (a.isBlockedClient r.addr r.effectiveID).1 = excluded al bl r.addr r.effectiveID := by
+  rw [decision_general h, excluded]
+  cases hv : r.addr.isValid with
+  | true => cases al.isEmpty <;> simp
+  | false =>
+    have h1 : ∀ es, addrListed es r.addr = false := by intro es; simp [addrListed, hv]
+    simp only [inScope, hv, Bool.false_or, Bool.or_eq_true] at hs
+    cases he : al.isEmpty with
+    | true => simp [h1]
+    | false =>
+      simp only [he, false_or, Bool.false_eq_true] at hs
+      simp [h1, hs]
 
 end AGH.C03
